@@ -1,5 +1,89 @@
-(* C18 -- placeholder while the harness is brought up *)
+(* C18 -- A partition or group lease has at most one live owner.
+   Only statements closed by [exact]; proofs live in proofs/LeaseProofs.v.
+
+   The model (model/Lease.v, part 1) is the lease manager WITH
+   fixes/C18-release-guarded-delete.patch applied ([c_guard = true]): any number of
+   brokers and resources, events at etcd-operation granularity (AcqBegin, AcqTxn,
+   ReacqTxn, AcqCommitLocal, RelLocal, RelDelete, SessionExpire, ReleaseAll, Restart,
+   OrphanExpire).  Event granularity = named assumption: a session expiry is ONE event
+   (etcd drops the keys of the lease and the holder clears its ownership map). *)
 From KS Require Import lib.Base lib.Strings lib.EtcdKV model.Lease proofs.LeaseProofs.
 Open Scope Z_scope.
-Example C18_nonvacuous : owns (run (mkConfig [47] true) [AcqBegin [49] [120]; AcqTxn [49] [120]; AcqCommitLocal [49] [120]]) [49] [120] = true.
-Proof. vm_compute. reflexivity. Qed.
+
+(* (1) at no time do two brokers both believe they own the same lease: for EVERY event
+       list (any interleaving of acquire steps, release halves, expiries, restarts, of
+       any number of brokers on any number of resources), in the state reached. *)
+Theorem C18_single_owner : forall cfg evs b b' r,
+  c_guard cfg = true ->
+  owns (run cfg evs) b r = true -> owns (run cfg evs) b' r = true -> b = b'.
+Proof. exact single_owner. Qed.
+Print Assumptions C18_single_owner.
+
+(* (2) what a broker believes is backed by etcd: the lease key exists, stores its id and
+       hangs on its current, live session lease. *)
+Theorem C18_owner_holds_key : forall cfg evs b r,
+  c_guard cfg = true -> owns (run cfg evs) b r = true ->
+  exists S x, m_session (get_mgr (run cfg evs) b) = Some S /\
+              lease_live (s_etcd (run cfg evs)) S = true /\
+              get (s_etcd (run cfg evs)) (lease_key cfg r) = Some x /\ kv_val x = b /\ kv_lease x = S.
+Proof. exact owner_holds_key. Qed.
+Print Assumptions C18_owner_holds_key.
+
+(* (3) a broker releasing a lease never removes a lease that another broker has since
+       acquired: in every reachable state, the etcd request of a Release leaves every key
+       that stores another broker's id untouched, and leaves the key of every lease that
+       is currently owned by anyone untouched (including the releasing broker's own
+       re-acquired lease); all owners stay owners. *)
+Theorem C18_release_safe : forall cfg evs b r,
+  c_guard cfg = true ->
+  let s := run cfg evs in
+  let s' := fst (step cfg s (RelDelete b r)) in
+  (forall k x, get (s_etcd s) k = Some x -> kv_val x <> b -> get (s_etcd s') k = Some x) /\
+  (forall b' r', owns s b' r' = true ->
+                 get (s_etcd s') (lease_key cfg r') = get (s_etcd s) (lease_key cfg r') /\
+                 owns s' b' r' = true).
+Proof. exact release_safe. Qed.
+Print Assumptions C18_release_safe.
+
+(* the invariant behind (1)-(3), for reference: holds in every reachable state *)
+Theorem C18_invariant : forall cfg evs, c_guard cfg = true -> inv cfg (run cfg evs).
+Proof. exact inv_run. Qed.
+Print Assumptions C18_invariant.
+
+Definition A : bytes := [49].
+Definition B : bytes := [50].
+Definition C : bytes := [51].
+Definition r0 : bytes := [111; 47; 48].
+Definition acq (b r : bytes) : list event := [AcqBegin b r; AcqTxn b r; ReacqTxn b r; AcqCommitLocal b r].
+(* the design-round finding: A acquires; local half of Release; A's session expires;
+   B acquires; A's late delete; C acquires *)
+Definition stale_release : list event :=
+  acq A r0 ++ [RelLocal A r0; SessionExpire A] ++ acq B r0 ++ [RelDelete A r0] ++ acq C r0.
+(* A re-acquires between the two halves of its own Release, then B tries *)
+Definition own_reacquire : list event :=
+  acq A r0 ++ [RelLocal A r0] ++ acq A r0 ++ [RelDelete A r0] ++ acq B r0.
+
+(* (4) the guard is what makes it true: with the ORIGINAL unconditional Delete
+       ([c_guard = false]) both schedules end with two owners. *)
+Theorem C18_unguarded_release_unsafe :
+  let cfg := mkConfig [47; 112] false in
+  (owns (run cfg stale_release) B r0 = true /\ owns (run cfg stale_release) C r0 = true) /\
+  (owns (run cfg own_reacquire) A r0 = true /\ owns (run cfg own_reacquire) B r0 = true).
+Proof. vm_compute. repeat split. Qed.
+Print Assumptions C18_unguarded_release_unsafe.
+
+(* non-vacuity: with the guard the same schedules reach states with an owner (so the
+   hypotheses of (1)-(3) are met), the late delete is a no-op, the third broker is refused;
+   a restarted broker takes its key over; a released lease can be taken by another broker *)
+Example C18_nonvacuous :
+  let cfg := mkConfig [47; 112] true in
+  (owns (run cfg stale_release) B r0 = true /\ owns (run cfg stale_release) C r0 = false /\
+   key_owner cfg (run cfg stale_release) r0 = Some B) /\
+  (owns (run cfg own_reacquire) A r0 = true /\ owns (run cfg own_reacquire) B r0 = false /\
+   key_owner cfg (run cfg own_reacquire) r0 = Some A) /\
+  (let evs := acq A r0 ++ [Restart A] ++ acq B r0 ++ acq A r0 ++ [OrphanExpire 1] in
+   owns (run cfg evs) A r0 = true /\ owns (run cfg evs) B r0 = false /\
+   key_owner cfg (run cfg evs) r0 = Some A) /\
+  (let evs := acq A r0 ++ [RelLocal A r0; RelDelete A r0] ++ acq B r0 in
+   owns (run cfg evs) A r0 = false /\ owns (run cfg evs) B r0 = true).
+Proof. vm_compute. repeat split. Qed.
